@@ -2087,8 +2087,8 @@ def gen_c15(rng, tier):
             k += 1
     # long sequences over very large long-tailed alphabets (one dominant symbol, hundreds of thousands of symbols occurring
     # once): anything that rescales or floors the frequencies only shows here.  Given in the compact `a..b*c` notation.
-    for dom, tail in sizes(tier, [(150000, 112144)], [(150000, 112144), (300000, 224288), (1200000, 897152)]):
-        for fam in ["hq", "hw"]:
+    for dom, tail in sizes(tier, [(300000, 224288), (3000000, 1194304)], [(150000, 112144), (300000, 224288), (3000000, 1194304), (6000000, 600000)]):
+        for fam in (["hq", "hw"] if dom + tail < 1000000 or tier == "thorough" else ["hq"]):
             kind = rng.choice(HQ_KINDS[:2]) if fam == "hq" else "hwt"
             c = Case("c15-big%d" % k, model=False, tags=dict(kind=kind, elem="u32", n=dom + tail, alphabet=tail + 1, mix="long-tail", path="new", trivial=False, cost=(dom + tail) * 4))
             c.add("NEW %s u32 new %d 0*%d 1..%d*1" % (kind, dom + tail, dom, tail + 1))
